@@ -408,6 +408,11 @@ MovesErr(h, kn) ==
         MapS(be, LAMBDA e : MMutate(i, <<KV("x", e)>>))
         \o MapS(Take(be, 12), LAMBDA e : MFilter(i, <<Fn2("gt", e, LitI(0))>>))
         \o MapS(a, LAMBDA c : MFilter(i, <<Col(c)>>))                                           \* non-boolean predicate
+        \* the offending argument in the 4th / 5th position of filter and arrange (the messages name the position)
+        \o MapS(a, LAMBDA c : LET ok == Fn2("ge", Col(c), LitI(-100)) IN MFilter(i, <<ok, ok, ok, Fn2("add", Col(c), LitI(1))>>))
+        \o MapS(a, LAMBDA c : LET ok == Fn2("ge", Col(c), LitI(-100)) IN MFilter(i, <<ok, ok, ok, ok, Fn2("gt", Agg("sum", Agg("sum", Col(c))), LitI(1))>>))
+        \o Flat(MapS(a, LAMBDA c : MapS(Take(bv, 1), LAMBDA q :
+              MArrange(i, <<Ord(Col(c), FALSE, "first"), Ord(Col(c), TRUE, "last"), Ord(Col(q), FALSE, "first"), Ord(Fn2("add", Col(c), Col(q)), FALSE, "first")>>))))
         \o MapS(a, LAMBDA c : MFilter(i, <<Fn2("add", Col(c), LitI(1))>>))
         \o <<MFilter(i, <<LitN>>)>>
         \o MapS(a, LAMBDA c : MFilter(i, <<Fn2("gt", Win("row_number", <<>>, <<Ord(Col(c), FALSE, "first")>>), LitI(1))>>))
